@@ -269,6 +269,10 @@ impl HalState {
     pub fn live_dma_count(&self) -> usize {
         self.dma.iter().filter(|e| e.live).count()
     }
+    /// Live shares whose virtual range intersects [lo, hi).
+    pub fn live_shares_in(&self, lo: usize, hi: usize) -> Vec<(usize, usize, Dir, u64)> {
+        self.shares.iter().filter(|e| e.live && e.len > 0 && e.vaddr < hi && e.vaddr + e.len > lo).map(|e| (e.vaddr, e.len, e.dir, e.seq)).collect()
+    }
     /// Drops retired entries (keeps the ledger small in long runs).
     pub fn compact(&mut self) {
         self.shares.retain(|e| e.live);
@@ -438,4 +442,50 @@ unsafe impl Hal for LabHal {
             }
         })
     }
+}
+
+/// Bounds [lo, hi) of the calling thread's stack.
+pub fn stack_bounds() -> (usize, usize) {
+    thread_local! {
+        static B: std::cell::Cell<(usize, usize)> = const { std::cell::Cell::new((0, 0)) };
+    }
+    B.with(|b| {
+        if b.get() == (0, 0) {
+            // SAFETY: plain libc queries on the calling thread.
+            unsafe {
+                let mut attr: libc::pthread_attr_t = std::mem::zeroed();
+                if libc::pthread_getattr_np(libc::pthread_self(), &mut attr) == 0 {
+                    let mut addr: *mut libc::c_void = std::ptr::null_mut();
+                    let mut size: libc::size_t = 0;
+                    libc::pthread_attr_getstack(&attr, &mut addr, &mut size);
+                    libc::pthread_attr_destroy(&mut attr);
+                    b.set((addr as usize, addr as usize + size));
+                }
+            }
+        }
+        b.get()
+    })
+}
+
+/// The stack pointer of the frame in which the macro is expanded: everything below it belongs to
+/// frames that have returned.
+#[macro_export]
+macro_rules! current_sp {
+    () => {{
+        let sp: usize;
+        // SAFETY: reads a register.
+        unsafe { core::arch::asm!("mov {}, rsp", out(reg) sp, options(nomem, nostack, preserves_flags)) };
+        sp
+    }};
+}
+pub use current_sp;
+
+/// Live shares that point into the dead part of this thread's stack (below `sp`): buffers of
+/// stack frames which no longer exist but which the device may still read or write.
+pub fn dangling_stack_shares(sp: usize) -> Vec<(usize, usize, Dir, u64)> {
+    let (lo, hi) = stack_bounds();
+    if lo == 0 || sp <= lo || sp > hi {
+        return vec![];
+    }
+    with(|h| h.live_shares_in(lo, sp))
 }
